@@ -18,6 +18,8 @@ FACETS = {
     "C19": "VRFK",
     "C18": "VRFK",
     "C09": "VRFCTNK",
+    "C11": "VRFK",
+    "C12": "VRFK",
     "C14": "VRSCK",
     "C15": "VRSCTNK",
     "C16": "VRSEK",
